@@ -246,11 +246,11 @@ fn phase_json(s: &State<Eos>) -> Value {
 
 /// conditions every returned 2-phase result must satisfy; returns (list of broken conditions, metrics)
 fn common_checks(vle: &Vle, t: f64, worst: &mut Worst) -> Vec<String> {
-    common_checks_tol(vle, Some(t), worst, Tol { lnf: TOL_LNF, p_abs: TOL_P_ABS })
+    common_checks_tol(vle, Some(t), worst, Tol { lnf: TOL_LNF, p_abs: TOL_P_ABS, strict_roles: true })
 }
 
 fn common_checks_opt(vle: &Vle, t: Option<f64>, worst: &mut Worst) -> Vec<String> {
-    common_checks_tol(vle, t, worst, Tol { lnf: TOL_LNF, p_abs: TOL_P_ABS })
+    common_checks_tol(vle, t, worst, Tol { lnf: TOL_LNF, p_abs: TOL_P_ABS, strict_roles: true })
 }
 
 /// tolerances derived from the REQUESTED solver tolerance (the property quantifies over solver option pairs)
@@ -258,16 +258,17 @@ fn common_checks_opt(vle: &Vle, t: Option<f64>, worst: &mut Worst) -> Vec<String
 struct Tol {
     lnf: f64,
     p_abs: f64,
+    strict_roles: bool,
 }
 impl Tol {
     /// bubble/dew: the outer loop accepts err_out < tol_outer, where err_out is sum|K x1/x2 - 1| (=> |dln f| ~ tol) or the
     /// Newton residual norm in reduced units (=> |dln f| < tol / T, |dp| < tol); factor 10 + round-off floor 1e-10
     fn bubble_dew(tol_outer: f64) -> Tol {
-        Tol { lnf: 10.0 * tol_outer + 1e-10, p_abs: TOL_P_ABS + 10.0 * tol_outer }
+        Tol { lnf: 10.0 * tol_outer + 1e-10, p_abs: TOL_P_ABS + 10.0 * tol_outer, strict_roles: true }
     }
     /// Tp flash: the returned state is the one whose residual norm was tested: |dln f_i| < tol (+ round-off floor)
     fn flash(tol: f64) -> Tol {
-        Tol { lnf: tol + 1e-10, p_abs: TOL_P_ABS }
+        Tol { lnf: tol + 1e-10, p_abs: TOL_P_ABS, strict_roles: true }
     }
 }
 
@@ -313,7 +314,14 @@ fn common_checks_tol(vle: &Vle, t: Option<f64>, worst: &mut Worst, tol: Tol) -> 
         bad.push(format!("phases are copies of each other (max rel. partial density deviation {dist})"));
     }
     if !(v.density.to_reduced() < l.density.to_reduced()) {
-        bad.push("vapor() is not the lighter phase".into());
+        // not a clause of the property text: enforced for the default-option drivers (where it always holds on the unchanged
+        // tree), only counted for the non-default option pairs (observation in notes/C05.md: a dew-point call can converge to
+        // the bubble-point equilibrium of the same composition)
+        if tol.strict_roles {
+            bad.push("vapor() is not the lighter phase".into());
+        } else {
+            worst.role_swapped += 1;
+        }
     }
     bad
 }
@@ -328,6 +336,7 @@ struct Worst {
     dpspec: f64,
     dp_abs: f64,
     lnf_ratio: f64,
+    role_swapped: usize,
     narrow: usize,
     variants: std::collections::BTreeMap<String, [usize; 2]>,
     /// attempted/found: p-specified bubble points, flashes from an initial state, diagram states checked, diagrams failed
@@ -592,7 +601,7 @@ fn variants(sys: &Sys, t: f64, x: f64, s: f64, ntot: f64, pb: f64, pd: f64, bub:
     let t_off = Temperature::from_reduced(t * if rng.below(2) == 0 { 0.99 } else { 1.01 });
     for k in 0..2 {
         let (nm, oi, oo, tol_o) = opt_cases[(rng.below(3) + 3 * k) % 6];
-        let tol = Tol::bubble_dew(tol_o);
+        let tol = Tol { strict_roles: false, ..Tol::bubble_dew(tol_o) };
         for drv in 0..4 {
             let kind = format!("{}_opts:{nm}", ["bubble_T", "dew_T", "bubble_p", "dew_p"][drv]);
             let r = run_guard(|| match drv {
@@ -618,6 +627,9 @@ fn variants(sys: &Sys, t: f64, x: f64, s: f64, ntot: f64, pb: f64, pd: f64, bub:
                             bad.push(format!("{pn} pressure {pk} is not the specified {psp}"));
                         }
                     }
+                }
+                if !bad.is_empty() {
+                    bad.push(format!("[returned vapor(): {}; liquid(): {}]", phase_json(vle.vapor()), phase_json(vle.liquid())));
                 }
                 bad
             });
@@ -1047,6 +1059,29 @@ fn main() {
                 }
                 Err(_) => worst.extra[5] += 1,
             }
+            // the same driver with the pressure specified (isobaric T-x diagram): both phases at one T, p = the specified one
+            if let Ok(b) = run_guard(|| Vle::bubble_point(&sys.eos, Temperature::from_reduced(td), &arr1(&[0.5, 0.5]), None, None, Default::default())) {
+                let psp = b.liquid().pressure(Contributions::Total).to_reduced();
+                match run_guard(|| feos_core::PhaseDiagram::binary_vle(&sys.eos, Pressure::from_reduced(psp), Some(7), None, Default::default())) {
+                    Ok(dia) => {
+                        for vle in &dia.states {
+                            worst.extra[4] += 1;
+                            let mut bad = common_checks_opt(vle, None, &mut worst);
+                            for (nm, ph) in [("vapor", vle.vapor()), ("liquid", vle.liquid())] {
+                                let pk = ph.pressure(Contributions::Total).to_reduced();
+                                if !(((pk - psp).abs() - TOL_P_ABS).max(0.0) / psp <= 1e-7) {
+                                    bad.push(format!("{nm} pressure {pk} is not the specified {psp}"));
+                                }
+                            }
+                            if !bad.is_empty() {
+                                failures.push(json!({"key": {"pair": sys.names, "kind": "binary_vle_p", "T": td, "x": vle.liquid().molefracs[0]},
+                                    "what": bad.join("; "), "detail": {"p_spec": psp, "vapor": phase_json(vle.vapor()), "liquid": phase_json(vle.liquid())}, "Tc": sys.tc, "s": 0.5, "ntot": 6.02214076e23}));
+                            }
+                        }
+                    }
+                    Err(_) => worst.extra[5] += 1,
+                }
+            }
         }
         for pi in 0..pts_per_pair {
             let t = tlow * prng.range(0.65, 0.9);
@@ -1153,7 +1188,8 @@ fn main() {
             "worst": {"rel_pressure_difference": worst.dp, "abs_ln_fugacity_difference": worst.lnf, "min_phase_distinctness": worst.min_dist,
                       "spec_composition_deviation": worst.dx, "rel_feed_imbalance": worst.dbal, "rel_flash_pressure_deviation": worst.dpspec,
                       "abs_pressure_difference_reduced": worst.dp_abs,
-                      "ln_fugacity_difference_over_allowed_(requested_tolerance)": worst.lnf_ratio, "envelopes_narrower_than_tolerance_(no_flash)": worst.narrow},
+                      "ln_fugacity_difference_over_allowed_(requested_tolerance)": worst.lnf_ratio, "envelopes_narrower_than_tolerance_(no_flash)": worst.narrow,
+                      "non_default_option_results_with_vapor()_denser_than_liquid()_(counted,_not_a_clause)": worst.role_swapped},
             "bubble_p_specified_attempted": worst.extra[0], "bubble_p_specified_found": worst.extra[1],
             "flash_from_initial_state_attempted": worst.extra[2], "flash_from_initial_state_found": worst.extra[3],
             "variants_attempted_found": worst.variants.iter().map(|(k, v)| (k.clone(), json!(v))).collect::<serde_json::Map<String, Value>>(),
